@@ -659,6 +659,48 @@ def depth_part(run, sim, d):
 
 
 # ------------------------------------------------------------------------------------------------
+# error bits: set_error_bits from several threads at once vs the model's OR-accumulation
+# ------------------------------------------------------------------------------------------------
+ERR_CODES = [1 << 1, 1 << 2, 1 << 3, 1 << 4, 1 << 5, 1 << 6, 1 << 7, 1 << 8]
+
+
+def errbits_lines(r, n):
+    out = []
+    for _ in range(n):
+        k = r.randint(1, 6)
+        codes = []
+        for _ in range(k):
+            c = 0
+            for b in r.sample(ERR_CODES, r.randint(1, 3)):
+                c |= b
+            codes.append(c)
+        out.append("errbits " + " ".join(map(str, codes)))
+    return out
+
+
+def errbits_part(run, r, model, sim, d, n):
+    lines = errbits_lines(r, n)
+    scen = ["natoms 1", "smp perm 2", "new"] + lines + ["endcase 0"]
+    rc, out, err = run_batch(sim, scen, d)
+    got = [l for l in out if l.startswith("ERRBITS")]
+    rcm, mout, em = V.run_lines(model, ["ERRBITS " + l.split(" ", 1)[1] for l in lines])
+    for k, l in enumerate(lines):
+        run.count(l, True)
+        run.dist("errbits:cases")
+        codes = [int(t) for t in l.split()[1:]]
+        want = 1
+        for c in codes:
+            want |= c
+        g = got[k] if k < len(got) else "<none>"
+        if g != "ERRBITS %d" % want:
+            run.violation("error-bits:lost-update", "set_error_bits(%s) from %d concurrent threads left the error word %s, the OR of the codes (with COLVARS_ERROR) is %d" % (
+                codes, len(codes), g, want), {"kind": "errbits", "line": l})
+        m = mout[k] if k < len(mout) else "<none>"
+        if m != g:
+            run.mismatch("error-bits", l, g, m)
+
+
+# ------------------------------------------------------------------------------------------------
 # ThreadSanitizer exploration (thorough tier): std::thread executor only
 # ------------------------------------------------------------------------------------------------
 def tsan_part(run, r, tcases, rcases, d):
@@ -678,6 +720,7 @@ def tsan_part(run, r, tcases, rcases, d):
         if c["smp"] == "perm":
             c2 = dict(c); c2["steps"] = [dict(st, nt=max(2, st["nt"])) for st in c["steps"]]
             jobs.append((c2, rcase_scenario(c2, "perm", "T%d" % c["id"]), "rcase"))
+    jobs.append(({"errbits": True}, ["natoms 1", "smp perm 2", "new"] + errbits_lines(r, 6) + ["endcase 0"], "errbits"))
     for c, scen, kind in jobs:
         rc, out, err = run_batch(sim, scen, d, env, timeout=600)
         run.dist("tsan:scenarios")
@@ -694,7 +737,7 @@ def tsan_part(run, r, tcases, rcases, d):
             run.violation("tsan:%s" % re.sub(r"[^A-Za-z0-9_:]", "_", fn)[:60],
                           "ThreadSanitizer (std::thread executor) reports a data race in %s (%s:%s) [exploration: a failing schedule, not a proof obligation]; report:\n%s" % (
                               fn, os.path.basename(lib[0][1]), lib[0][2], rep[:1500]),
-                          {"kind": kind, "case": c, "tsan": True})
+                          {"kind": kind, "case": c, "tsan": True, "scenario": scen if kind == "errbits" else None})
             break
     run.cov["correspondence"]["tsan_scenarios"] = len(jobs)
     run.cov["correspondence"]["tsan_reports_in_library"] = nrep
@@ -763,13 +806,14 @@ def check(run):
     d = V.scratch("C12")
 
     # witness of the (repaired) item-list defect and corpus first, then generated cases
-    tc = witness_tcases() + load_corpus() + [gen_tcase(r, k) for k in range(150 if quick else 4000)]
+    tc = witness_tcases() + load_corpus() + [gen_tcase(r, k) for k in range(300 if quick else 4000)]
     B = 200
     for b0 in range(0, len(tc), B):
         tie_part(run, r, model, sim, tc[b0:b0 + B], d)
-    rc = [gen_rcase(r, k) for k in range(40 if quick else 1200)]
+    rc = [gen_rcase(r, k) for k in range(80 if quick else 1200)]
     rich_part(run, r, sim, rc, d)
     depth_part(run, sim, d)
+    errbits_part(run, r, model, sim, d, 40 if quick else 400)
     run.cov["correspondence"].update({"t_scenarios": len(tc), "r_scenarios": len(rc)})
     # ThreadSanitizer with the std::thread executor: a few scenarios in the quick tier, more in the thorough tier
     if quick:
@@ -805,6 +849,8 @@ def replay(path):
         b = V.run_lines(sim, rcase_scenario(c, "serial", "B"), cwd=d)[1]
         print("first difference (schedule vs serial):", first_diff(strip_items(a), strip_items(b)))
         print("---- scenario:\n" + "\n".join(rcase_scenario(c, c["smp"], "A")))
+    elif rp.get("kind") == "errbits":
+        print(rp.get("line") or "\n".join(rp.get("scenario") or []))
     elif rp.get("kind") == "depth":
         print("\n".join(rp["scenario"]))
     else:
